@@ -1882,6 +1882,10 @@ func (g *shpGen) emit(c *shpCase, origin string) {
 	g.c.Case(Diagnostic, "shape.guarded", line, nontrivial)
 
 	g.c.Stat("origin", origin)
+	if strings.HasPrefix(origin, "gtab.Read") {
+		// every list the reader delivers must be in the hypothesis class of C07_no_panic
+		g.c.Stat("class of reader-delivered lists", shpClass(c.ll))
+	}
 	g.c.Stat("history length", strconv.Itoa(len(c.hist)))
 	g.c.Stat("lookups in list", strconv.Itoa(len(c.ll)))
 	for _, s := range c.hist {
